@@ -123,6 +123,9 @@ func sig(v ssa.Value, depth int, seen map[ssa.Value]bool) string {
 			if o := LoadOrigin(x); o != ssa.Value(x) {
 				return sig(o, depth+1, seen)
 			}
+			if v := literalField(x); v != nil {
+				return sig(v, depth+1, seen)
+			}
 			return "*" + sig(x.X, depth+1, seen)
 		case token.NOT:
 			return "!" + sig(x.X, depth+1, seen)
@@ -561,4 +564,46 @@ func DumpParams(p *Program) map[string][][2]string {
 		}
 	}
 	return out
+}
+
+// literalField: a load of a field of a local struct that is only ever built by one composite
+// literal (each field stored at most once, the address handed to nobody) is the value the
+// literal puts there: the struct merely carries it.
+func literalField(ld *ssa.UnOp) ssa.Value {
+	fa, ok := ld.X.(*ssa.FieldAddr)
+	if !ok {
+		return nil
+	}
+	al, ok := fa.X.(*ssa.Alloc)
+	if !ok {
+		return nil
+	}
+	var val ssa.Value
+	for _, ref := range *al.Referrers() {
+		switch r := ref.(type) {
+		case *ssa.FieldAddr:
+			for _, r2 := range *r.Referrers() {
+				switch u := r2.(type) {
+				case *ssa.Store:
+					if u.Addr != ssa.Value(r) {
+						return nil // the field's address is stored somewhere
+					}
+					if r.Field == fa.Field {
+						if val != nil {
+							return nil
+						}
+						val = u.Val
+					}
+				case *ssa.UnOp:
+				default:
+					return nil
+				}
+			}
+		case *ssa.UnOp: // a whole-struct load
+		case *ssa.DebugRef:
+		default:
+			return nil // the struct's address escapes (a call, a store)
+		}
+	}
+	return val
 }
